@@ -1,9 +1,21 @@
 (* Props/C05.v — C05: any altered byte is detected; no read succeeds with different content.
-   Chunk level (this file, growing): a single altered byte in the type, data or CRC field of a
-   chunk always fails that chunk's CRC check; an altered length byte re-frames the stream and is
-   accepted only on an explicit 32-bit CRC coincidence (which no argument about the code can
-   exclude: the universal statement of the property is true up to that 2^-32 event). *)
-From PNA Require Import Base Crc32 Codec Chunk Archive Entry ArchiveRun BaseFacts Crc32Facts ChunkFacts ArchiveFacts EntryFacts.
+   Theorem families (model of lib/src/chunk/read.rs, archive/read.rs incl. read_next_archive; proofs in
+   Proofs/{Crc32Facts,ChunkFacts,ArchiveFacts,PartsFacts}.v):
+     crc        CRC-32 detects every single altered byte
+     chunk      a single altered byte in the type, data or CRC field of a chunk always fails that chunk's CRC
+                check; an altered length byte re-frames the stream and is accepted only on an explicit 32-bit
+                CRC coincidence (which no argument about the code can exclude: the universal statement of the
+                property is true up to that 2^-32 event)
+     archive    one altered byte anywhere in a written archive, outside length fields: InvalidData after exactly
+                the entries wholly before it; inside the signature: InvalidData at open
+     multipart  the same for one altered byte in any part of a chain of part files, whatever parts follow;
+                for a length-field byte: an error (UnexpectedEof or InvalidData) unless ONE stated equation
+                between two 32-bit values (len_coincidence) holds — entries before it unchanged
+     numbers    a part whose AHED number is not its predecessor's + 1 (swapped, duplicated, foreign part) ends
+                the read with InvalidData; the FIRST part's number is not checked by Archive::read_header
+                (C05_part_number_of_first_part_refuted)
+     readers    stream and slice readers are the same functions *)
+From PNA Require Import Base Crc32 Codec Chunk Archive Entry ArchiveRun BaseFacts Crc32Facts ChunkFacts ArchiveFacts EntryFacts OffsetFacts PartsFacts.
 Open Scope N_scope.
 
 Theorem C05_crc32_detects_single_byte :
@@ -70,3 +82,120 @@ Theorem C05_all_readers_same :
              /\ entries read_chunk_slice bs = entries read_chunk_stream bs.
 Proof. exact (fun bs => conj (stream_slice_agree bs) (entries_stream_slice_agree bs)). Qed.
 Print Assumptions C05_all_readers_same.
+
+(* ---- multipart ------------------------------------------------------------------------------
+   (vocabulary as in Props/C06.v)  part_len_field num bk lf n: offset n of the part file lies in the first 4 bytes of
+   one of its chunks.  One altered byte (any non-zero mask m) at any other offset n of any part of a chain, whatever
+   parts follow it: the read ends with InvalidData — never Ok — after exactly the entries that the chunks before the
+   altered one complete; if the very first part is hit inside its 28-byte header, the open fails. *)
+Theorem C05_alter_multipart :
+  forall pre bk lf later n0 n m, Forall body_ok pre -> body_ok bk -> n0 + len pre < 2 ^ 32 ->
+  0 < m < 256 -> (n < length (part_bytes (n0 + len pre) bk lf))%nat ->
+  part_len_field (n0 + len pre) bk lf n = false ->
+  read_parts read_chunk_stream (chain_nl n0 pre ++ xor_at (part_bytes (n0 + len pre) bk lf) n m :: later) =
+  if is_nil pre && Nat.ltb n 28 then Err InvalidData
+  else Ok (fst (scan [] (concat pre ++ chunks_before bk (n - 28))), FinErr InvalidData).
+Proof. exact alter_multipart. Qed.
+Check C05_alter_multipart :
+  forall pre bk lf later n0 n m, Forall body_ok pre -> body_ok bk -> n0 + len pre < 2 ^ 32 ->
+  0 < m < 256 -> (n < length (part_bytes (n0 + len pre) bk lf))%nat ->
+  part_len_field (n0 + len pre) bk lf n = false ->
+  read_parts read_chunk_stream (chain_nl n0 pre ++ xor_at (part_bytes (n0 + len pre) bk lf) n m :: later) =
+  if is_nil pre && Nat.ltb n 28 then Err InvalidData
+  else Ok (fst (scan [] (concat pre ++ chunks_before bk (n - 28))), FinErr InvalidData).
+Print Assumptions C05_alter_multipart.
+
+(* a byte of a length field (i < 4 inside the chunk c that `hit` finds at offset n; `after` = the chunks behind c in
+   the part): detected as an error, with the same entries delivered, unless
+   len_coincidence c rest i m  :=  crc_coincidence c rest (of_be (xor_at (be32 (len (cdata c))) i m)),
+   i.e. unless the four bytes at the re-framed CRC position happen to equal the CRC of the re-framed payload *)
+Theorem C05_alter_multipart_length_field :
+  forall pre bk lf later n0 n m c after i,
+  Forall body_ok pre -> body_ok bk -> n0 + len pre < 2 ^ 32 -> 0 < m < 256 -> (8 <= n)%nat ->
+  hit (part_chunks (n0 + len pre) bk lf) (n - 8) = Some (c, after, i) -> (i < 4)%nat ->
+  ~ len_coincidence c (ser_chunks after) i m ->
+  exists e, (e = UnexpectedEof \/ e = InvalidData) /\
+    read_parts read_chunk_stream (chain_nl n0 pre ++ xor_at (part_bytes (n0 + len pre) bk lf) n m :: later) =
+    if is_nil pre && Nat.ltb n 28 then Err e
+    else Ok (fst (scan [] (concat pre ++ chunks_before bk (n - 28))), FinErr e).
+Proof. exact alter_multipart_len_field. Qed.
+Check C05_alter_multipart_length_field :
+  forall pre bk lf later n0 n m c after i,
+  Forall body_ok pre -> body_ok bk -> n0 + len pre < 2 ^ 32 -> 0 < m < 256 -> (8 <= n)%nat ->
+  hit (part_chunks (n0 + len pre) bk lf) (n - 8) = Some (c, after, i) -> (i < 4)%nat ->
+  ~ len_coincidence c (ser_chunks after) i m ->
+  exists e, (e = UnexpectedEof \/ e = InvalidData) /\
+    read_parts read_chunk_stream (chain_nl n0 pre ++ xor_at (part_bytes (n0 + len pre) bk lf) n m :: later) =
+    if is_nil pre && Nat.ltb n 28 then Err e
+    else Ok (fst (scan [] (concat pre ++ chunks_before bk (n - 28))), FinErr e).
+Print Assumptions C05_alter_multipart_length_field.
+
+(* every byte of a part is covered by one of the two theorems: offsets below 8 and non-length-field offsets by the
+   first, the rest by the second (the chunk that is hit exists and is well-formed) *)
+Theorem C05_every_part_offset_is_in_a_chunk :
+  forall num bk lf n, body_ok bk -> (8 <= n < length (part_bytes num bk lf))%nat ->
+  exists c after i, hit (part_chunks num bk lf) (n - 8) = Some (c, after, i) /\ wf_chunk c /\ (i < length (ser_chunk c))%nat.
+Proof. exact part_hit_some. Qed.
+Check C05_every_part_offset_is_in_a_chunk :
+  forall num bk lf n, body_ok bk -> (8 <= n < length (part_bytes num bk lf))%nat ->
+  exists c after i, hit (part_chunks num bk lf) (n - 8) = Some (c, after, i) /\ wf_chunk c /\ (i < length (ser_chunk c))%nat.
+Print Assumptions C05_every_part_offset_is_in_a_chunk.
+
+(* a single archive is the chain of one part *)
+Theorem C05_single_archive_is_one_part :
+  forall num es, part_bytes num (concat es) true = write_raw_archive num es.
+Proof. exact single_part_is_archive. Qed.
+Check C05_single_archive_is_one_part :
+  forall num es, part_bytes num (concat es) true = write_raw_archive num es.
+Print Assumptions C05_single_archive_is_one_part.
+
+Example C05_multipart_example :
+  Forall body_ok [exp_b0; exp_b1; exp_b2] /\
+  part_len_field 2 exp_b2 true 65 = false /\
+  read_parts read_chunk_stream (firstn 2 exp_chain ++ [xor_at (nth 2 exp_chain []) 65 1]) = Ok ([exp_e1; exp_e2], FinErr InvalidData) /\
+  (exists c after, hit (part_chunks 0 exp_b0 false) (31 - 8) = Some (c, after, 3%nat) /\ ~ len_coincidence c (ser_chunks after) 3 8 /\
+     read_parts read_chunk_stream (xor_at (nth 0 exp_chain []) 31 8 :: skipn 1 exp_chain) = Ok ([], FinErr InvalidData)).
+Proof. exact (conj (proj1 exp_wf) (conj (proj1 exp_alter) (conj (proj2 exp_alter) exp_alter_len))). Qed.
+
+(* ---- part numbers -----------------------------------------------------------------------------
+   read_next_archive compares the AHED number of the part it opens with that of the part just read: a part k >= 1
+   that carries any other number than its predecessor's + 1 (parts swapped, a part given twice, a part of another
+   set) ends the read with InvalidData after the entries of the parts before it *)
+Theorem C05_part_number_mismatch_detected :
+  forall pre b n0 m bk lf later, Forall body_ok (b :: pre) -> n0 + len pre < 2 ^ 32 ->
+  m < 2 ^ 32 -> m <> n0 + len pre + 1 ->
+  read_parts read_chunk_stream (chain_nl n0 (b :: pre) ++ part_bytes m bk lf :: later) =
+  Ok (fst (scan [] (concat (b :: pre))), FinErr InvalidData).
+Proof. exact chain_number_mismatch. Qed.
+Check C05_part_number_mismatch_detected :
+  forall pre b n0 m bk lf later, Forall body_ok (b :: pre) -> n0 + len pre < 2 ^ 32 ->
+  m < 2 ^ 32 -> m <> n0 + len pre + 1 ->
+  read_parts read_chunk_stream (chain_nl n0 (b :: pre) ++ part_bytes m bk lf :: later) =
+  Ok (fst (scan [] (concat (b :: pre))), FinErr InvalidData).
+Print Assumptions C05_part_number_mismatch_detected.
+
+(* "part k carries a number <> k => error" does NOT hold for k = 0: Archive::read_header accepts any number in
+   the first part, so a set that is read starting from a later part is taken as it comes (witness: any single last
+   part, whatever its number) *)
+Theorem C05_part_number_of_first_part_refuted :
+  forall b num, body_ok b -> num < 2 ^ 32 ->
+  read_parts read_chunk_stream [part_bytes num b true] = Ok (fst (scan [] b), FinOk).
+Proof. exact first_part_number_unchecked. Qed.
+Check C05_part_number_of_first_part_refuted :
+  forall b num, body_ok b -> num < 2 ^ 32 ->
+  read_parts read_chunk_stream [part_bytes num b true] = Ok (fst (scan [] b), FinOk).
+Print Assumptions C05_part_number_of_first_part_refuted.
+
+Example C05_part_number_examples :
+  read_parts read_chunk_stream [nth 0 exp_chain []; nth 2 exp_chain []; nth 1 exp_chain []] = Ok ([exp_e1], FinErr InvalidData) /\
+  read_parts read_chunk_stream [nth 0 exp_chain []; nth 1 exp_chain []; nth 1 exp_chain []; nth 2 exp_chain []] = Ok ([exp_e1], FinErr InvalidData) /\
+  read_parts read_chunk_stream [nth 2 exp_chain []] = Ok ([[mk FDAT [x07]; mk FEND []]; exp_e3], FinOk).
+Proof. exact (conj exp_swapped (conj exp_duplicated exp_last_alone)). Qed.
+
+(* the slice reader chains parts through the same function *)
+Theorem C05_part_chain_readers_same :
+  forall parts, read_parts read_chunk_slice parts = read_parts read_chunk_stream parts.
+Proof. exact stream_slice_agree_parts. Qed.
+Check C05_part_chain_readers_same :
+  forall parts, read_parts read_chunk_slice parts = read_parts read_chunk_stream parts.
+Print Assumptions C05_part_chain_readers_same.
